@@ -16,7 +16,8 @@
       - Seek follows io.Seeker for the three whence values; a negative target or an unknown
         whence fails and leaves the position alone (the number returned next to the error is
         not specified); a target past the end is accepted;
-      - WriteTo delivers everything from the position to the end and moves there. *)
+      - WriteTo delivers everything from the position to the end, returns the number of
+        bytes delivered, and moves there. *)
 From Coq Require Import List ZArith Bool NArith.
 From V Require Import lib.Verdict model.M_C10 model.M_C09 proofs.P_C09.
 Import ListNotations.
@@ -56,7 +57,7 @@ Print Assumptions C09_iterate.
 Theorem C09_seek_past_end : forall t off n,
   consistent t = true -> len (flatten t) <= off -> 0 < n ->
   snd (run t (len (flatten t)) (rd_init t) [OSeek off 0; ORead n; OWriteTo; OSeek 0 1])
-  = [BSeek off true; BRead [] EEOF; BWrite [] ENone; BSeek off true].
+  = [BSeek off true; BRead [] EEOF; BWrite [] 0 ENone; BSeek off true].
 Proof. exact seek_past_end. Qed.
 Print Assumptions C09_seek_past_end.
 
@@ -71,6 +72,6 @@ Example C09_example :
   consistent t = true /\ forallb op_wf ops = true /\
   snd (run t (len (flatten t)) (rd_init t) ops) =
   [BRead [1; 2; 3] ENone; BSeek 2 true; BRead [] ENone; BRead [3; 4; 5; 6] ENone;
-   BSeek 7 true; BWrite [8; 9] ENone; BRead [] EEOF; BSeek 9 false; BSeek 12 true;
-   BRead [] EEOF; BSeek 4 true; BWrite [5; 6; 7; 8; 9] ENone].
+   BSeek 7 true; BWrite [8; 9] 2 ENone; BRead [] EEOF; BSeek 9 false; BSeek 12 true;
+   BRead [] EEOF; BSeek 4 true; BWrite [5; 6; 7; 8; 9] 5 ENone].
 Proof. vm_compute. repeat split. Qed.
